@@ -165,3 +165,28 @@ pub proof fn lemma_cl_block(q: Quantifier, vars: Seq<Variable>, body: Formula, m
     lemma_cl_pred_ext(body, m);
     lemma_quant_set(q, vars, |s2: Asg| cl_sat(body, m, s2), s);
 }
+
+/// g on the keys bound by gv, s elsewhere
+pub open spec fn overwrite(s: Asg, gv: Seq<Variable>, g: Asg) -> Asg
+    decreases gv.len(),
+{
+    if gv.len() == 0 { s } else { overwrite(s, gv.drop_last(), g).insert(vkey(gv.last()), g[vkey(gv.last())]) }
+}
+
+pub proof fn lemma_overwrite(s: Asg, gv: Seq<Variable>, g: Asg)
+    ensures forall|k: VKey| #[trigger] overwrite(s, gv, g)[k] == (if bound_by(gv, k) { g[k] } else { s[k] }),
+    decreases gv.len(),
+{
+    if gv.len() == 0 {
+        assert forall|k: VKey| !bound_by(gv, k) by {}
+    } else {
+        let pre = gv.drop_last();
+        lemma_overwrite(s, pre, g);
+        assert(gv =~= pre.push(gv.last()));
+        assert forall|k: VKey| #[trigger] overwrite(s, gv, g)[k] == (if bound_by(gv, k) { g[k] } else { s[k] }) by {
+            lemma_bound_by_push(pre, gv.last(), k);
+            assert(overwrite(s, pre, g)[k] == (if bound_by(pre, k) { g[k] } else { s[k] }));
+        }
+    }
+}
+
